@@ -39,7 +39,7 @@ Proof.
     destruct (o_reply c); [destruct (o_deadline c) as [d|]; [destruct (d <=? now s); [destruct (is_running s)|]|]| |]; now left.
   - destruct (getop s o) as [c|]; [|now left]; destruct (o_status c); try (now left);
     destruct (o_rx c); cbn [negb]; [|now left]; destruct (nth_error (o_items c) (o_taken c)) as [r|];
-    [ destruct (r_kind r); now left
+    [ destruct (r_kind r); try destruct (o_kind c) as [|[|]| |]; now left
     | destruct (o_chan c); cbn [negb]; [|now left]; destruct (o_tmo c) as [d|]; [|now left];
       match goal with |- context [if ?b then _ else _] => destruct b end; [destruct (is_running s)|]; now left ].
   - destruct (getop s o) as [c|]; [|now left]; destruct (o_status c); try (now left); try destruct (fix20 (fx s)); destruct (is_running s); now left.
@@ -206,7 +206,7 @@ Proof.
     destruct (o_status c); try apply ipres_refl.
     destruct (o_rx c); cbn [negb]; [|repeat istrip].
     destruct (nth_error (o_items c) (o_taken c)) as [r|].
-    + destruct (r_kind r); repeat istrip.
+    + destruct (r_kind r); try destruct (o_kind c) as [|[|]| |]; repeat istrip.
     + destruct (o_chan c); cbn [negb]; [|repeat istrip].
       destruct (o_tmo c) as [d|]; [|repeat istrip]. match goal with |- context [if ?b then _ else _] => destruct b end; [|repeat istrip].
       destruct (is_running s); repeat istrip.
